@@ -8,6 +8,8 @@ CONSTANTS
   MaxMig = 0
   Serial = FALSE
   Requesters = {1, 2, 3}
+  MCPages <- NoFrames
+  SkipZero = FALSE
   AcceptGuard = "handling"
 INVARIANTS TContentsCopied TNothingElseChanged CompleteOnce OneAtATime RoutedBack
 CONSTRAINT Mark
